@@ -393,3 +393,30 @@ Proof.
     assert (A3 : 32 * (u * d) <= a) by nia.
     split; nia.
 Qed.
+
+(* The property's wording.  x = a/d is the recorded value (any non-negative rational, in particular every
+   finite double), the code buckets v = floor (1024 x), and reports m / 1024. *)
+Theorem reported_within_16th n a d i : 5 <= n -> 0 < d -> d <= 32 * a ->
+  value_to_index n (1024 * a / d) = Some i ->
+  let m := bucket_mid n i in
+  16 * (m * d) <= 17 * (1024 * a) /\ 15 * (1024 * a) <= 16 * (m * d).
+Proof.
+  intros Hn Hd Hx Hi m. destruct (mid_error n (1024 * a) d i Hn Hd Hi) as [H1 H2]. fold m in H1, H2. split; lia.
+Qed.
+
+Theorem reported_within_1024th n a d i : 5 <= n -> 0 < d -> 32 * a < d ->
+  value_to_index n (1024 * a / d) = Some i ->
+  let m := bucket_mid n i in
+  m * d <= 1024 * a /\ 1024 * a < m * d + d.
+Proof.
+  intros Hn Hd Hx Hi m.
+  assert (Hv : 1024 * a / d < 32).
+  { apply N.div_lt_upper_bound; lia. }
+  rewrite index_small in Hi by assumption.
+  assert (Hi' : i = 1024 * a / d) by congruence. clear Hi.
+  unfold m. rewrite mid_closed by assumption. rewrite Hi'.
+  apply N.ltb_lt in Hv. rewrite Hv.
+  pose proof (N.mul_div_le (1024 * a) d ltac:(lia)).
+  pose proof (N.mul_succ_div_gt (1024 * a) d ltac:(lia)).
+  split; nia.
+Qed.
